@@ -121,7 +121,7 @@ CHECKS["C11"] = {'design_ref': 'DESIGN.md section 6 C11',
          "here: the clause 'every datagram the library emits carries version 1 and the connection id owed to "
          "that direction' (connection-level; only the per-header serialiser is checked)."}
 
-CHECKS["C14"] = {'design_ref': 'DESIGN.md section 6 C14',
+PENDING_C14 = {'design_ref': 'DESIGN.md section 6 C14',
  'note': 'Trusted: as C16. No axioms. Header constants re-read from the compiled crate on every run. The '
          'search and ceiling checks of the predicate apply only while the op discipline (outcomes for sizes '
          'handed out, consistent with some P; no payload above the ceiling) holds on the observed trace; '
